@@ -122,8 +122,7 @@ def run(ctx):
     f = P.fns.get("BlsSignatureProof::verify")
     if f is not None:
         ev = evaluate(f)
-        for b in R.ok_blocks(f):
-            lits = G.path_literals(ev, b, P)
+        for b, lits in R.ok_exits(P, f, ev):
             pair = [a for a, p in lits if p and a[1] == "is_identity" and a[2].op == "call" and B.cname(a[2]) == "Pairing::pairing"]
             ok = len(pair) == 1
             if ok:
